@@ -239,6 +239,70 @@ def _chunk(items):
     return out
 
 
+def _cross_chunk(jobs):
+    """Several logarithmic units with different references of one dimension, asked for the
+    levels of quantities written in the SAME unit objects, in every order of first use and
+    without restoring in between: a level may depend on its own unit's reference only, never
+    on which other logarithmic unit was used before."""
+    sp = c04.space()
+    w = sp.w
+    out = {"n": 0, "nt": set(), "viols": [], "outcomes": {}}
+    for group, lis, perm in jobs:
+        w.restore()
+        qunits = [sp.unit((REFS[group[0]][2], REFS[group[0]][3]))] + [sp.unit(o) for o in REFS[group[0]][5][:2]]
+        lus = {}
+        for ri in group:
+            for li in lis:
+                label, rmag, rpre, rfac, is_root, _ = REFS[ri]
+                lus[(li, ri)] = make_log(w, LOGS[li])[rmag * sp.unit((rpre, rfac))]
+        for li, ri in perm:
+            spec = LOGS[li]
+            label, rmag, rpre, rfac, is_root, _ = REFS[ri]
+            lu = lus[(li, ri)]
+            k = 2 if is_root else 1
+            b = base_value(spec[1])
+            pv = Decimal(1) if spec[2] is None else Decimal(spec[2][0]) ** spec[2][1]
+            ref_si = mag(rmag) * sp.oracle.unit_size(sp.unit((rpre, rfac)))
+            for qu in qunits:
+                for qm in (5, 0.25):
+                    q = qm * qu
+                    out["n"] += 1
+                    want = Decimal(k) / pv * (ln(mag(qm) * sp.oracle.unit_size(qu) / ref_si) / ln(b))
+                    try:
+                        got = mag(lu.level(q).magnitude)
+                    except Exception as e:  # noqa
+                        out["outcomes"]["cross: raised"] = out["outcomes"].get("cross: raised", 0) + 1
+                        continue
+                    out["outcomes"]["cross: value"] = out["outcomes"].get("cross: value", 0) + 1
+                    out["nt"].add((tuple(perm), li, ri, str(qu), qm))
+                    tol = REL * max(abs(want), 1) + (Decimal(k) / pv) * Decimal("1e-5") * 3 / ln(b)
+                    if abs(got - want) > tol:
+                        order = [f"{LOGS[a][0]}[{REFS[b_][0]}]" for a, b_ in perm]
+                        out["viols"].append((
+                            "level_depends_on_other_logarithmic_units", f"{spec[0]}[{label}]",
+                            f"used in the order {order}: {lu}.level({q}) = {float(got)!r}, closed form {float(want)!r}",
+                            {"cross": [list(group), list(lis), [list(x) for x in perm]]}))
+    w.restore()
+    out["nt"] = len(out["nt"])
+    return out
+
+
+def cross_jobs(thorough):
+    import itertools
+
+    jobs = []
+    groups = [(0, 1, 2, 4), (6, 7)] if thorough else [(0, 1, 4), (6, 7)]
+    families = [(1,), (2,), (1, 2)] if thorough else [(1,), (1, 2)]
+    for group in groups:
+        for lis in families:
+            members = [(li, ri) for ri in group for li in lis]
+            if len(members) > 4:
+                members = members[:4]
+            for perm in itertools.permutations(members):
+                jobs.append((group, lis, perm))
+    return jobs
+
+
 def run(rep, tier):
     sp = c04.space()
     need = {n for r in REFS for n, _ in r[3]} | {n for r in REFS for o in r[5] for n, _ in o[1]}
@@ -247,6 +311,8 @@ def run(rep, tier):
         raise HarnessError(f"units not available: {missing}")
     items = rotate([(li, ri) for li in range(len(LOGS)) for ri in range(len(REFS))])
     res = pmap(_chunk, chunked(items, 32))
+    cj = cross_jobs(tier == "thorough")
+    res += pmap(_cross_chunk, chunked(cj, 8))
     n = nt = 0
     outcomes = {}
     for r in res:
@@ -264,6 +330,7 @@ def run(rep, tier):
             "logarithms": [l[0] for l in LOGS],
             "references": [r[0] for r in REFS],
             "levels": [repr(x) for x in LEVELS],
+            "cross_unit_orders": len(cj),
             "distinct_outcomes": outcomes,
             "samples": [f"{LOGS[a][0]}[{REFS[b][0]}]" for a, b in items[:5]],
             "exhaustive": True,
@@ -276,6 +343,10 @@ def run(rep, tier):
 
 
 def replay(obj, kind=None):
+    if "cross" in obj:
+        group, lis, perm = obj["cross"]
+        r = _cross_chunk([(tuple(group), tuple(lis), [tuple(x) for x in perm])])
+        return (True, r["viols"][0][2]) if r["viols"] else (False, "levels independent of the order of use")
     r = _chunk([(obj["log"], obj["ref"])])
     hits = [v for v in r["viols"] if (kind is None or v[0] == kind) and all(v[3].get(k) == obj.get(k) for k in ("L", "u", "typ", "what") if k in obj)]
     return (True, hits[0][2]) if hits else (False, "agrees with the closed form")
